@@ -109,7 +109,7 @@ impl NumSem {
         let (x, y) = (a.as_f64(), b.as_f64());
         if op == "add" || op == "sub" { super::f64sem::ill_conditioned(&self.flags, x, y, if op == "add" { x + y } else { x - y })?; }
         if op == "mod" && self.flags.tol.get() > 0.0 { return Err(Stop::Unspec("RemainderOfInexactOperand")); }
-        if op == "pow" { super::f64sem::amplifies(&self.flags, y)?; }
+        if op == "pow" { super::f64sem::amplifies(&self.flags, y)?; super::f64sem::neg_base_inexact(&self.flags, x)?; }
         let v = match op {
             "add" => x + y, "sub" => x - y, "mul" => x * y, "div" => x / y, "mod" => x % y, "pow" => x.powf(y),
             _ => return Err(Stop::Unspec("UnknownBinary")),
